@@ -969,7 +969,9 @@ def exec_options(item):
         bad = _judge_results(cs, oc, obs1, obs2, emitted, ocs, val)
         exp, got = cs["extra"], val["extra"]
         if not bad:
-            for f in ("dist", "tree_default", "tree_kmer", "tree_identity"):
+            if got["dist"] not in exp["dist"]:     # the specification gives the set of acceptable answers
+                bad.append("extra:dist")
+            for f in ("tree_default", "tree_kmer", "tree_identity"):
                 if got[f] != exp[f]:
                     bad.append("extra:" + f)
             g = cs["guard"]
@@ -993,7 +995,9 @@ def exec_options(item):
 
 def _short_extra(x):
     out = dict(x)
-    out["dist"] = {"k": x["dist"]["k"], "m": [r[:6] for r in x["dist"]["m"][:6]]}
+    ds = x["dist"] if isinstance(x["dist"], list) else [x["dist"]]     # expected: the acceptable answers
+    ds = [{"k": d["k"], "m": [r[:6] for r in d["m"][:6]]} for d in ds]
+    out["dist"] = ds if isinstance(x["dist"], list) else ds[0]
     for f in ("tree_default", "tree_kmer", "tree_identity"):
         out[f] = [[c[:8] for c in t[:8]] for t in x[f]]
     return out
@@ -1080,6 +1084,18 @@ def gen_trace(item):
     return {"events": events, "kind": kind}
 
 
+def _random_clades(rng, n):
+    """Clades of a random binary tree on the leaves 0..n-1 (canonical order: size, members)."""
+    groups = [[i] for i in range(n)]
+    clades = []
+    while len(groups) > 1:
+        a = groups.pop(rng.randrange(len(groups)))
+        b = groups.pop(rng.randrange(len(groups)))
+        groups.append(sorted(a + b))
+        clades.append(groups[-1])
+    return sorted(clades, key=lambda c: (len(c), c))
+
+
 def gen_results(item):
     """S3 of the data half: a random successful run (any number of sequences, any permutation,
     any lengths, any output volume) recorded with the program's own copy of what it emitted."""
@@ -1108,7 +1124,7 @@ def gen_results(item):
         if "matrix" in setters:
             st = "prot"
         given = {"matrix": [[0 if i == j else rng.randint(1, 9) + 20 * (i + j) for j in range(n)] for i in range(n)],
-                 "tree": [list(range(n - 1 - k, n)) for k in range(1, n)]}
+                 "tree": _random_clades(rng, n)}
         given["matrix"] = [[given["matrix"][min(i, j)][max(i, j)] for j in range(n)] for i in range(n)]
         cs = {"case": {"st": st, "pad": rng.choice(["end", "alternate"])}, "L": lens, "p": perm}
         progress({"kind": kind, "n": n, "tool": tool, "setters": setters})
@@ -1303,7 +1319,8 @@ def run(ctx):
         subsets = {(k, tuple(sorted(n for j, n in enumerate(names) if m >> j & 1))) for m in range(1 << len(names))}
         if not subsets <= seen_sets:
             raise Vacuity(f"option cases of {k}: subsets {sorted(subsets - seen_sets)} of the setters missing")
-    if not any(cs["extra"]["dist"]["k"] == "value" and "dist_in" in cs["case"]["setters"] for cs in ocases):
+    if not any([d["k"] for d in cs["extra"]["dist"]] == ["value"] and "dist_in" in cs["case"]["setters"]
+               for cs in ocases):
         raise Vacuity("no option case in which a distance matrix is both given and asked for")
     if not any(cs["extra"]["tree_kmer"] and cs["extra"]["tree_kmer"] != cs["extra"]["tree_identity"] for cs in ocases):
         raise Vacuity("no option case with distinguishable trees of the two iterations")
@@ -1365,6 +1382,10 @@ def run(ctx):
     ctx.evaluations += sum(len(t) for t in traces)
     ctx.nontrivial += sum(1 for t in traces if any(e["app"] == "RUNNING" for e in t))
     ctx.cov["s3_traces"] = len(traces)
+    ctx.cov["s3_refused_constructions"] = sum(1 for t in traces if t[0]["c"] == "construct" and t[0]["oc"] != "ok")
+    ctx.cov["s3_resisting_programs_ended_from_outside"] = sum(
+        1 for t in traces if any(e["tool"]["stop"] == "resists" and e["c"] in ("cancel", "join_t")
+                                 and e["oc"] in ("ok", "TimeoutError") and e["app"] == "CANCELLED" for e in t))
     ctx.cov["s3_tools"] = len({json.dumps(it["tool"], sort_keys=True) for it in titems})
     ctx.sample({"s3_trace": traces[0][:3]} if traces else {})
 
@@ -1432,22 +1453,57 @@ def run(ctx):
     binding_selftest(ctx, [[{k: e[k] for k in keep}] for (e,) in rtraces if e["join"] == "ok"], corrupt_rows,
                      module="ResultsTrace", cfg="ResultsTrace.cfg")
 
+    def corrupt_extra(tr):
+        x = tr[0]["extra"]
+        if x["dist"]["k"] == "value":
+            x["dist"]["m"][0][1] += 1     # not the matrix the program wrote
+            return True
+        if x["tree_kmer"]:
+            x["tree_kmer"], x["tree_identity"] = x["tree_identity"], x["tree_kmer"]
+            return x["tree_kmer"] != x["tree_identity"]
+        return False
+
+    with_extra = [[{k: e[k] for k in keep}] for (e,) in rtraces if e["join"] == "ok" and (
+        e["extra"]["dist"]["k"] == "value" or (e["extra"]["tree_kmer"] and e["n"] >= 3))]
+    ctx.cov["s3_result_runs_with_matrix"] = sum(1 for (e,) in rtraces if e["extra"]["dist"]["k"] == "value")
+    ctx.cov["s3_result_runs_matrix_given_and_asked"] = sum(
+        1 for (e,) in rtraces if e["extra"]["dist"]["k"] == "value" and "dist_in" in e["setters"])
+    if not with_extra:
+        raise Vacuity("S3-results: no recorded run with a class-specific result")
+    binding_selftest(ctx, with_extra, corrupt_extra, module="ResultsTrace", cfg="ResultsTrace.cfg")
+
 
 def replay(record):
-    if record.get("kind") in ("results", "results_event"):
+    if record.get("kind") in ("results", "results_event", "options"):
         # the stored expectation (computed by TLC in the run that found it) against a fresh run
+        setters = given = None
         if record["kind"] == "results":
             cs = {"case": record["case"], "L": record["L"], "p": record["p"]}
             tool = None
+        elif record["kind"] == "options":
+            cs = {"case": record["case"], "L": record["L"], "p": record["p"]}
+            tool, setters, given = None, record["case"]["setters"], record["given"]
         else:
             cs = {"case": {"st": record["st"], "pad": record["pad"]}, "L": record["lens"],
                   "p": record["emitted_order"]}
-            tool = record["tool"]
-        oc, (_o1, obs2), _em, ocs, val, _st = run_results_case(record["app_kind"], cs, tool=tool)
+            tool, setters, given = record["tool"], record.get("setters"), record.get("given")
+        oc, (_o1, obs2), _em, ocs, val, _st = run_results_case(record["app_kind"], cs, tool=tool,
+                                                               setters=setters, given=given)
         exp = record["expected"]
         bad = []
+        if oc["construct"] != "ok":
+            bad.append("construct")
         if oc["join"] != exp["join"]:
             bad.append("join")
+        if exp.get("extra") and oc["join"] == "ok":
+            got = _short_extra(val["extra"])
+            if got["dist"] not in exp["extra"]["dist"] or any(
+                    got[f] != exp["extra"][f] for f in ("tree_default", "tree_kmer", "tree_identity")):
+                bad.append("extra")
+        if "guard" in exp and oc["join"] == "ok" and (
+                oc.get("guard_getters_created") not in (exp["guard"]["getter_created"], "none")
+                or oc.get("guard_setters_joined") not in (exp["guard"]["setter_joined"], "none")):
+            bad.append("guard")
         bad += [c for c, o in ocs.items() if o != "ok"]
         for i, r in exp.get("rows", {}).items():
             if int(i) >= len(val["rows"]) or val["rows"][int(i)] != r:
@@ -1456,7 +1512,7 @@ def replay(record):
             bad.append("order")
         return {"observed": {"join": oc["join"], "app": obs2["app"], "getters": ocs,
                              "rows": _small(val["rows"], [int(i) for i in exp.get("rows", {})]),
-                             "order": val["order"][:24]},
+                             "order": val["order"][:24], "extra": _short_extra(val["extra"])},
                 "expected": exp, "mismatch": bool(bad), "bad": bad}
     h = Harness(record["app_kind"], record["tool"])
     try:
@@ -1473,7 +1529,7 @@ def replay(record):
 
 
 MANIFEST = {
-    "technique": "TLA+ life-cycle state machine (specs/C20) model-checked by TLC incl. liveness, plus a TLA+ specification of the result mapping (rows mapped back to the input order by header number); every (state, call) pair / transition replayed against the real wrappers with real child processes; TLC-generated result cases run through the real wrappers; recorded call sequences and recorded runs validated by TLC",
-    "level_text": "TLC explores the complete reachable state space of the wrapper life cycle (15 public calls + two environment steps x 122 behaviours of the external program: launch failure, row order, complete / truncated / garbage / no output, exit 0 / failing exit / death by SIGKILL, SIGTERM, SIGSEGV, output volume below / above the OS pipe size on STDOUT / STDERR; closes at depth 5) and checks RunEndsClean, ResultsOnlyAfterJoin, ResultsOnlyOfSuccess, refusal-is-a-no-op, legal-iff-allowed and, under weak fairness, that a started program leaves its working phase and that a program waiting for a reader is ended by join. The graph of 16 core behaviours is executed against ClustalOmegaApp, MuscleApp, Muscle5App, MafftApp (real child processes of a fake tool whose progress the harness triggers) and a minimal Application subclass: quick covers every (state, call) pair on every class, thorough every transition; wrapper state, outcome class, child-process liveness, temp files, working directory, number of clean-up runs and result values are compared after each call. The result mapping is specified on values (MsaResults.tla) and checked for 2..101 (thorough ..120) sequences x 6 emission orders x length profiles x padding x sequence type, incl. alignments larger than a pipe. Random longer call sequences and random runs (up to 125 sequences) are validated by TLC against the same operators.",
-    "level_note": "The external programs are replaced by fixtures/bin/fake_msa; timing is controlled by trigger / marker files; a call that does not return within 20 s is the outcome Hang. Wrapper state is read from the private flag (the public query is its own action). After a failed launch only clean-up obligations are compared. Trusted: TLC, /proc/<pid>/stat for process liveness, the fake program's own copy of what it emitted (cross-checked against the specification's environment in S2).",
+    "technique": "TLA+ life-cycle state machine (specs/C20) model-checked by TLC incl. liveness, plus TLA+ specifications of the result mapping (rows mapped back to the input order by header number) and of the class-specific options and results (distance matrix, guide trees: what the program wrote, for every order of every subset of the option setters); every (state, call) pair / transition replayed against the real wrappers with real child processes; TLC-generated result and option cases run through the real wrappers; recorded call sequences and recorded runs validated by TLC",
+    "level_text": "TLC explores the complete reachable state space of the wrapper life cycle (the construction, 15 public calls and two environment steps x 246 behaviours of the environment: refused construction (binary missing / wrong version / no version when asked, refused arguments), launch failure, row order, complete / truncated / garbage / no output, exit 0 / failing exit / death by SIGKILL, SIGTERM, SIGSEGV, output volume below / above the OS pipe size on STDOUT / STDERR, a program that dies on / resists the signals it can catch; closes at depth 6) and checks RunEndsClean, NoObjectNoResources, ResultsOnlyAfterJoin, ResultsOnlyOfSuccess, refusal-is-a-no-op, legal-iff-allowed and, under weak fairness, that a started program leaves its working phase and that a program waiting for a reader is ended by join. The graph of 23 core behaviours is executed against ClustalOmegaApp, MuscleApp, Muscle5App, MafftApp (real child processes of a fake tool whose progress the harness triggers) and a minimal Application subclass: quick covers every (state, call) pair on every class, thorough every transition; wrapper state, outcome class, child-process liveness (/proc), temporary files (a private temporary directory), working directory, number of clean-up runs and result values are compared after each call, the construction included. The result mapping is specified on values (MsaResults.tla) and checked for 2..101 (thorough ..120) sequences x 6 emission orders x length profiles x padding x sequence type, incl. alignments larger than a pipe. The class-specific results (MsaOptions.tla) are checked for every order of every subset of the option setters of each class (thorough: every sequence of up to 3 setters) x 3 (5) numbers of sequences x emission orders, the program writing known, distinguishable content into every output file it is asked for. Random longer call sequences and random runs (up to 125 sequences, random setter sequences, random caller matrices and trees) are validated by TLC against the same operators.",
+    "level_note": "The external programs are replaced by fixtures/bin/fake_msa; timing is controlled by trigger / marker files; a call that does not return within 20 s is the outcome Hang. Wrapper state is read from the private flag (the public query is its own action). After a failed launch or a refused construction only clean-up obligations are compared. A construction can only fail on the version answer for the classes that ask for it. Without full_matrix_calculation() the distance-matrix getter may refuse or hand out the program's matrix. Trusted: TLC, /proc/<pid>/stat for process liveness, the fake program's own copy of what it emitted (cross-checked against the specification's environment in S2), the fixture's known matrix / tree content.",
 }
